@@ -60,5 +60,5 @@ Example C01_bitmap_nonvacuous :
   geo_wf g /\ bholds g ops 5 167772161 /\ bholds g ops 4 167772165 /\ bholds g ops 3 167772162.
 Proof.
   cbv zeta. split; [apply geo_wfb_ok; vm_compute; reflexivity|].
-  repeat split; eexists; split; vm_compute; reflexivity.
+  split; [|split]; (eexists; split; [vm_compute; reflexivity|vm_compute; reflexivity]).
 Qed.
